@@ -1,5 +1,5 @@
 /* Import/export (binary + hex, both byte orders) and NAF / JSF recoding.  Included by h_c01.c.
- * Byte buffers are exact-size heap blocks so that ASan's redzone starts right behind them. */
+ * Byte buffers end exactly at a PROT_NONE page (gbuf): the first byte past the stated size faults. */
 
 enum { F_BE_BIN, F_LE_BIN, F_LE_HEX, F_BE_HEX, F__N };
 static const char *exp_name[F__N] = { "bn_export_be_bin", "bn_export_le_bin", "bn_export_le_hex", "bn_export_be_hex" };
@@ -44,6 +44,41 @@ encode_fmt(int f, const R *v, size_t units, uint8_t *p, int upper) {
 	return (1);
 }
 
+static NOINLINE int
+call_export(int f, bn_p X, uint32_t flags, uint8_t *buf, size_t sz, size_t *ret) {
+	volatile int rc = -1;
+	switch (f) {
+	case F_BE_BIN: GUARDED(rc = bn_export_be_bin(X, flags, buf, sz, ret)); break;
+	case F_LE_BIN: GUARDED(rc = bn_export_le_bin(X, flags, buf, sz, ret)); break;
+	case F_LE_HEX: GUARDED(rc = bn_export_le_hex(X, flags, buf, sz, ret)); break;
+	case F_BE_HEX: GUARDED(rc = bn_export_be_hex(X, flags, buf, sz, ret)); break;
+	}
+	return (rc);
+}
+static NOINLINE int
+call_import(int f, bn_p X, const uint8_t *buf, size_t len) {
+	volatile int rc = -1;
+	switch (f) {
+	case F_BE_BIN: GUARDED(rc = bn_import_be_bin(X, buf, len)); break;
+	case F_LE_BIN: GUARDED(rc = bn_import_le_bin(X, buf, len)); break;
+	case F_LE_HEX: GUARDED(rc = bn_import_le_hex(X, buf, len)); break;
+	case F_BE_HEX: GUARDED(rc = bn_import_be_hex(X, buf, len)); break;
+	}
+	return (rc);
+}
+static NOINLINE int
+call_naf(bn_p X, size_t w, size_t size, int8_t *arr, size_t *cnt) {
+	volatile int rc = -1;
+	GUARDED(rc = bn_calc_naf(X, w, size, arr, cnt));
+	return (rc);
+}
+static NOINLINE int
+call_jsf(bn_p X, bn_p Y, size_t size, int8_t *arr, size_t *cnt, size_t *off) {
+	volatile int rc = -1;
+	GUARDED(rc = bn_calc_jsf(X, Y, size, arr, cnt, off));
+	return (rc);
+}
+
 static void
 run_export(int f, const vset_t *sa) {
 	size_t i, ca, sz, maxsz; R av, got; const R *a = &av; bn_p X = slot[0];
@@ -60,20 +95,17 @@ run_export(int f, const vset_t *sa) {
 				uint32_t flags = fl ? BN_EXPORT_F_AUTO_SIZE : 0;
 				uint8_t keep[2][RL * 8 + 8]; size_t keepn[2] = { 0, 0 }; int keeprc[2] = { 0, 0 };
 				for (fi = 0; fi < 2; fi ++) {
-					uint8_t *buf = (uint8_t *)malloc(sz ? sz : 1);
+					uint8_t *buf = gbuf(0, sz);
 					volatile int rc = -1; volatile size_t ret = (size_t)-7;
 					size_t len;
 					g_fill = fi ? 0x00 : 0xA5;
-					memset(buf, 0xEE, sz ? sz : 1);
+					memset(buf, 0xEE, sz);
 					bn_make(X, a, ca, g_fill);
 					g_crashed = 0;
 					CALL_COUNT();
-					switch (f) {
-					case F_BE_BIN: GUARDED(rc = bn_export_be_bin(X, flags, buf, sz, (size_t *)&ret)); break;
-					case F_LE_BIN: GUARDED(rc = bn_export_le_bin(X, flags, buf, sz, (size_t *)&ret)); break;
-					case F_LE_HEX: GUARDED(rc = bn_export_le_hex(X, flags, buf, sz, (size_t *)&ret)); break;
-					case F_BE_HEX: GUARDED(rc = bn_export_be_hex(X, flags, buf, sz, (size_t *)&ret)); break;
-					}
+					g_cur_a = a; g_cur_b = NULL; g_cur_k = sz;
+					paint_stack(g_fill);
+					rc = call_export(f, X, flags, buf, sz, (size_t *)&ret);
 					keeprc[fi] = g_crashed ? -99 : rc;
 					if (!g_crashed && RC_OK(rc)) {
 						/* what the caller reads: `ret` units with AUTO_SIZE (or for the hex string), the whole buffer for fixed-size binary */
@@ -90,7 +122,6 @@ run_export(int f, const vset_t *sa) {
 						keepn[fi] = (len < sizeof(keep[fi])) ? len : 0;
 						memcpy(keep[fi], buf, keepn[fi]);
 					}
-					free(buf);
 				}
 				if (RC_OK(keeprc[0]) != RC_OK(keeprc[1]) ||
 				    (RC_OK(keeprc[0]) && (keepn[0] != keepn[1] || 0 != memcmp(keep[0], keep[1], keepn[0]))))
@@ -115,7 +146,7 @@ run_import(int f, const vset_t *sa) {
 				size_t len = units * (hex ? 2 : 1);
 				uint8_t *buf; res_t r[2];
 				if (r_bytelen(a) > units) continue;
-				buf = (uint8_t *)malloc(len ? len : 1);
+				buf = gbuf(1, len);
 				encode_fmt(f, a, units, buf, (int)(i & 1));
 				for (fi = 0; fi < 2; fi ++) {
 					R prev; volatile int rc = -1;
@@ -126,12 +157,9 @@ run_import(int f, const vset_t *sa) {
 					bn_make(X, &prev, ca, g_fill);
 					g_crashed = 0;
 					CALL_COUNT();
-					switch (f) {
-					case F_BE_BIN: GUARDED(rc = bn_import_be_bin(X, buf, len)); break;
-					case F_LE_BIN: GUARDED(rc = bn_import_le_bin(X, buf, len)); break;
-					case F_LE_HEX: GUARDED(rc = bn_import_le_hex(X, buf, len)); break;
-					case F_BE_HEX: GUARDED(rc = bn_import_be_hex(X, buf, len)); break;
-					}
+					g_cur_a = a; g_cur_b = NULL; g_cur_k = len;
+					paint_stack(g_fill);
+					rc = call_import(f, X, buf, len);
 					memset(&r[fi], 0, sizeof(r[fi]));
 					r[fi].rc = rc; r[fi].crashed = g_crashed;
 					if (g_crashed || !RC_OK(rc)) continue;
@@ -146,7 +174,6 @@ run_import(int f, const vset_t *sa) {
 				if (!res_same(&r[0], &r[1]))
 					vh_fail("stale-storage", "0x%s in %zu unit(s) into capacity %zu: rc %d/%d value 0x%s/0x%s for previous content all-ones+0xA5 / zero+0x00",
 					    HX(a, hx1), units, ca, r[0].rc, r[1].rc, HX(&r[0].v1, hx2), HX(&r[1].v1, hx3));
-				free(buf);
 			}
 		}
 	}
@@ -180,15 +207,17 @@ run_naf(const vset_t *sa) {
 			size_t size = (size_t)r_bitlen(a) + ds, k, j;
 			int8_t keep[2][RL * 32 + 8]; int keeprc[2]; size_t keepn[2] = { 0, 0 };
 			for (fi = 0; fi < 2; fi ++) {
-				int8_t *arr = (int8_t *)malloc(size ? size : 1);
+				int8_t *arr = (int8_t *)gbuf(0, size);
 				volatile int rc = -1; volatile size_t cnt = (size_t)-7;
 				int bad = 0;
 				g_fill = fi ? 0x00 : 0xA5;
-				memset(arr, 0x55, size ? size : 1);
+				memset(arr, 0x55, size);
 				bn_make(X, a, ca, g_fill);
 				g_crashed = 0;
 				CALL_COUNT();
-				GUARDED(rc = bn_calc_naf(X, w, size, arr, (size_t *)&cnt));
+				g_cur_a = a; g_cur_b = NULL; g_cur_k = w;
+				paint_stack(g_fill);
+				rc = call_naf(X, w, size, arr, (size_t *)&cnt);
 				keeprc[fi] = g_crashed ? -99 : rc;
 				if (!g_crashed && RC_OK(rc)) {
 					if (cnt > size) { bad = 1; vh_fail("size-reported", "a=0x%s w=%zu size=%zu rc=0 count=%zu", HX(a, hx1), w, size, (size_t)cnt); }
@@ -206,7 +235,6 @@ run_naf(const vset_t *sa) {
 					}
 					if (!bad && 0 == fi) vh_nontrivial();
 				}
-				free(arr);
 			}
 			if (RC_OK(keeprc[0]) != RC_OK(keeprc[1]) || (RC_OK(keeprc[0]) && (keepn[0] != keepn[1] || 0 != memcmp(keep[0], keep[1], keepn[0]))))
 				vh_fail("stale-storage", "a=0x%s w=%zu size=%zu: different outcome for fill 0xA5 / 0x00 (rc %d / %d)", HX(a, hx1), w, size, keeprc[0], keeprc[1]);
@@ -239,7 +267,7 @@ run_jsf(const vset_t *sa, const vset_t *sb) {
 				size_t size = 2 * off - 1 + ds * 2;	/* one short, exact, generous */
 				int keeprc[2];
 				for (fi = 0; fi < 2; fi ++) {
-					int8_t *arr = (int8_t *)malloc(size);
+					int8_t *arr = (int8_t *)gbuf(0, size);
 					volatile int rc = -1; volatile size_t cnt = (size_t)-7, offr = (size_t)-7;
 					int bad = 0; size_t k; int row;
 					g_fill = fi ? 0x00 : 0xA5;
@@ -248,9 +276,11 @@ run_jsf(const vset_t *sa, const vset_t *sb) {
 					bn_make(Y, &b, cap_alt(&b, i), g_fill);
 					g_crashed = 0;
 					CALL_COUNT();
-					GUARDED(rc = bn_calc_jsf(X, Y, size, arr, (size_t *)&cnt, (size_t *)&offr));
+					g_cur_a = a; g_cur_b = &b; g_cur_k = size;
+					paint_stack(g_fill);
+					rc = call_jsf(X, Y, size, arr, (size_t *)&cnt, (size_t *)&offr);
 					keeprc[fi] = g_crashed ? -99 : rc;
-					if (g_crashed || !RC_OK(rc)) { free(arr); continue; }
+					if (g_crashed || !RC_OK(rc)) continue;
 					if (cnt > offr || 2 * offr > size) {
 						bad = 1; vh_fail("size-reported", "a=0x%s b=0x%s size=%zu rc=0 count=%zu offset=%zu", HX(a, hx1), HX(&b, hx2), size, (size_t)cnt, (size_t)offr);
 					} else {
@@ -272,7 +302,6 @@ run_jsf(const vset_t *sa, const vset_t *sb) {
 						}
 					}
 					if (!bad && 0 == fi) vh_nontrivial();
-					free(arr);
 				}
 				if (RC_OK(keeprc[0]) != RC_OK(keeprc[1]))
 					vh_fail("stale-storage", "a=0x%s b=0x%s size=%zu: rc %d / %d for fill 0xA5 / 0x00", HX(a, hx1), HX(&b, hx2), size, keeprc[0], keeprc[1]);
